@@ -20,7 +20,7 @@ import (
 
 func init() {
 	kernel.Register(&kernel.World{
-		Property: "C04", Bubble: false, Run: func(c *kernel.Ctx) { runCRDT(c, false) }, RunsPerProc: 1500,
+		Property: "C04", Bubble: true, Run: runC04, RunsPerProc: 1500,
 		Rule: "one run = 3-5 replicas of the real event.State (volatile, durable in memory, durable on file by tape) with per-replica clocks (skew, ties, backward jumps); tape-generated Add/Del of subscription, ban and connection events at any replica; payloads = single-operation states, deltas returned by Merge and full snapshots, each delivered directly or through Encode->DecodeState, with reorder, duplication, loss and partitions; after EVERY merge each replica's entries (add time, remove time, activity via Get/Has/Range/State.Has) are compared with the point-wise maximum over the operations it has transitively received; two final all-to-all rounds must make all replicas equal; non-trivial = >= 1 merge changed a replica; distinct = distinct canonical logs",
 		Real:  []string{"event.State (Add, Del, Has, Merge, Encode, DecodeState)", "crdt.Volatile", "crdt.Durable (buntdb, freecache)", "event key/value codecs"},
 		Stub:  []string{"payload network (in-memory bag with reorder/dup/loss/partition)", "replica clocks (crdt.Now seam)"},
@@ -464,6 +464,15 @@ func runCRDT(c *kernel.Ctx, checkDelta bool) {
 			}
 		}
 	}
+}
+
+// runC04 picks the delivery-order campaign or the concurrent one (c04conc.go).
+func runC04(c *kernel.Ctx) {
+	if c.Params["campaign"] != "order" && (c.Params["campaign"] == "concurrent" || c.Tape.Chance(1, 4)) {
+		runCRDTConcurrent(c)
+		return
+	}
+	runCRDT(c, false)
 }
 
 // runC13 picks one of the two C13 campaigns.
